@@ -253,6 +253,60 @@ pub async fn h2_connect(conn: PeerConn, p: H2Params, rng: Rng) -> Result<H2Clien
     Ok(H2Client { send, driver })
 }
 
+/// The same over any transport (a TLS stream, say)
+pub async fn h2_connect_io<T>(io: T, p: H2Params) -> Result<H2Client, String>
+where
+    T: tokio::io::AsyncRead + tokio::io::AsyncWrite + Unpin + Send + 'static,
+{
+    let (send, connection) = h2::client::Builder::new()
+        .initial_window_size(p.initial_window)
+        .initial_connection_window_size(p.conn_window)
+        .max_frame_size(p.max_frame)
+        .handshake::<_, Bytes>(io)
+        .await
+        .map_err(|e| format!("h2 client handshake: {}", e))?;
+    let driver = tokio::spawn(async move { connection.await.map_err(|e| e.to_string()) });
+    Ok(H2Client { send, driver })
+}
+
+/// Read an HTTP/1.x response head from any async stream; returns the head and the leftover,
+/// or the bytes received before the stream ended
+pub async fn io_read_head<T: tokio::io::AsyncRead + Unpin>(io: &mut T) -> Result<(H1Head, Vec<u8>), (String, Vec<u8>)> {
+    use tokio::io::AsyncReadExt;
+    let mut buf = Vec::new();
+    loop {
+        match parse_h1_response_head(&buf) {
+            Ok(Some((h, n))) => return Ok((h, buf[n..].to_vec())),
+            Ok(None) => {}
+            Err(e) => return Err((format!("malformed: {}", e), buf)),
+        }
+        let mut tmp = [0u8; 16 * 1024];
+        match io.read(&mut tmp).await {
+            Ok(0) => return Err(("closed".into(), buf)),
+            Ok(n) => buf.extend_from_slice(&tmp[..n]),
+            Err(e) => return Err((format!("error: {}", e), buf)),
+        }
+    }
+}
+
+/// Read until the stream ends; Ok(true) = clean end
+pub async fn io_read_to_end<T: tokio::io::AsyncRead + Unpin>(io: &mut T, into: &mut Vec<u8>, keep: bool, count: &mut u64) -> bool {
+    use tokio::io::AsyncReadExt;
+    let mut tmp = vec![0u8; 64 * 1024];
+    loop {
+        match io.read(&mut tmp).await {
+            Ok(0) => return true,
+            Ok(n) => {
+                *count += n as u64;
+                if keep {
+                    into.extend_from_slice(&tmp[..n]);
+                }
+            }
+            Err(_) => return false,
+        }
+    }
+}
+
 pub fn basic_auth(user: &str, pass: &str) -> String {
     use base64::Engine;
     format!(
